@@ -8,17 +8,19 @@
     gauge never pays more than deposited ........ asset_gauge_bounded, rollapp_gauge_bounded, gauge_bounded
     stream never pays more than its total ....... FALSE as written: stream_epoch_bounded_partial /
                                                   stream_epoch_bounded_counterexample, stream_bounded_counterexample
-    module accounts hold the undistributed rest . module_solvent_incentives (true);
-                                                  streamer: module_solvent_streamer_counterexample (false, F8)
+    module accounts hold the undistributed rest . module_solvent_incentives (true); streamer: FALSE as written:
+                                                  module_solvent_streamer_partial / module_solvent_streamer_counterexample
     rewards reach only qualifying owners ........ recipients_legit, asset_rewards_proportional
     independence from the iteration limit ....... paging_independent, paging_exactly_once, paging_progress,
                                                   paging_effect (true for an id-sorted stream list);
                                                   FALSE of the code, whose list is not id-sorted and whose
                                                   streams may join mid-epoch: paging_unsorted_counterexample,
-                                                  paging_state_counterexample, paging_midepoch_counterexample
+                                                  paging_revisit_counterexample, paging_state_counterexample,
+                                                  paging_revisit_state_counterexample, paging_midepoch_counterexample
   Endorsement gauges / sponsored streams are C16's (not in M-Incent).
 -/
 import DymVerif.Lemmas.IncentInv
+import DymVerif.Lemmas.IncentStreams
 import DymVerif.Lemmas.IncentPaging
 import DymVerif.Lemmas.IncentShare
 import DymVerif.Lemmas.GenEqIncent
@@ -248,6 +250,13 @@ theorem paging_unsorted_counterexample :
       = [(0, 0)] ∧
     iterVisits data 1 Pointer.first maxU64 unitCb () = [(0, 0), (0, 1), (1, 0), (1, 1)] := by decide
 
+/-- the same unsorted list with limit 3: the first block visits (3,1),(3,2),(2,1) and saves the pointer
+    (stream 2, gauge 2), which bisects to stream 3 again — the second block re-visits (3,2) and (2,1) -/
+theorem paging_revisit_counterexample :
+    let data : List SView := [⟨3, 1, [⟨1, 1⟩, ⟨2, 1⟩]⟩, ⟨2, 1, [⟨1, 1⟩, ⟨2, 1⟩]⟩]
+    (pagedRun data 1 Pointer.first [⟨3, unitCb, ()⟩, ⟨3, unitCb, ()⟩]).2
+      = [(0, 0), (0, 1), (1, 0), (0, 1), (1, 0), (1, 1)] := by decide
+
 /-! ## 5. streams -/
 
 /- FULL STATEMENT (false): for every stream and epoch, Σ_records share(epochCoins, w, W) ≤ epochCoins,
@@ -294,6 +303,12 @@ def sixGauges (now : Nat) : List Op := List.replicate 6 (Op.createGauge 0 true 0
 def sixRecs : List Rec := [⟨1, 1⟩, ⟨2, 1⟩, ⟨3, 1⟩, ⟨4, 1⟩, ⟨5, 1⟩, ⟨6, 1⟩]
 def blocks (n dt : Nat) : List Op := (List.replicate n [Op.begin dt, Op.end_]).flatten
 
+/-- a history without over-distribution: two streams over two gauges, limit 500, three hours -/
+def unsortedHistoryPrefix : List Op :=
+  [.begin 1, .end_, .createGauge 0 true 0 1 true [] 101 1, .createGauge 0 true 0 1 true [] 101 1,
+   .locks [⟨1, 0, 100, 3600⟩], .fund streamerAddr [6000],
+   .createStream [3000] [⟨1, 1⟩, ⟨2, 1⟩] 101 1 3, .createStream [3000] [⟨1, 2⟩, ⟨2, 1⟩] 101 1 3] ++ blocks 3 3601
+
 /-- history: six perpetual gauges, one lock, a 6·10^18 stream over two `hour` epochs with equal weights,
     a second small stream, four hours of blocks -/
 def overHistory : List Op :=
@@ -312,6 +327,43 @@ theorem module_solvent_streamer_counterexample :
     (run (init 100 500) overHistory).bank.get streamerAddr = [988] ∧
     (upcomingStreams (run (init 100 500) overHistory) ++ activeStreams (run (init 100 500) overHistory)).map
       (fun s => (s.id, s.coins, s.distributed)) = [(2, [1000], [])] := by decide
+
+/- FULL STATEMENT (false, see the counter-example above): for every history the streamer account holds at
+   least Σ (coins − distributed) over its upcoming and active streams. -/
+
+/-- what is still owed to the streams in the upcoming and active lists (as `GetModuleToDistributeCoins`
+    sums them), per denom -/
+def streamerOwed (s : State) (i : Nat) : Nat := owedL s i
+
+/-- **for every history**: if at its end no stream has handed out more than its coins (then none ever
+    had: `streams_monotone`), the streamer account covers all upcoming and active streams.  The only
+    way to lose solvency is a stream over-distributing — which the share rounding and the unsorted
+    stream list both cause. -/
+theorem module_solvent_streamer_partial (now mi : Nat) (ops : List Op) (hw : ∀ op ∈ ops, op.wf ∧ op.wfS)
+    (hno : ∀ st ∈ (run (init now mi) ops).streams, ∀ i, amt st.distributed i ≤ amt st.coins i) (i : Nat) :
+    streamerOwed (run (init now mi) ops) i ≤ amt ((run (init now mi) ops).bank.get streamerAddr) i :=
+  run_solvent ops _ (init_ginv now mi) (init_sstruct now mi) (init_solv now mi) hw hno i
+
+/-- **for every history**: streams are never removed, keep their coins and ids, and their distributed
+    coins only grow (so an over-distribution is never undone) -/
+theorem streams_monotone (now mi : Nat) (ops more : List Op) (hw : ∀ op ∈ ops ++ more, op.wf ∧ op.wfS) :
+    StreamsMono (run (init now mi) ops).streams (run (run (init now mi) ops) more).streams := by
+  have h1 : ∀ op ∈ ops, op.wf ∧ op.wfS := fun o ho => hw o (List.mem_append_left _ ho)
+  have h2 : ∀ op ∈ more, op.wf ∧ op.wfS := fun o ho => hw o (List.mem_append_right _ ho)
+  have hg := run_ginv ops _ (init_ginv now mi) (fun o ho => (h1 o ho).1)
+  have hs := (run_struct_mono ops _ (init_ginv now mi) (init_sstruct now mi) h1).1
+  exact (run_struct_mono more _ hg hs h2).2
+
+/-- the allocation `CreateStream` subtracts from the balance is exactly `streamerOwed` while no stream
+    has over-distributed -/
+theorem module_to_distribute_exact (s : State) (alloc : Coins) (h : moduleToDistribute s = some alloc)
+    (hno : NoOver s.streams) (i : Nat) : amt alloc i = streamerOwed s i :=
+  moduleToDistribute_amt s alloc h hno i
+
+example : ∀ op ∈ overHistory, op.wf ∧ op.wfS := by decide
+/-- non-vacuity of the hypothesis: a history in which streams pay out without over-distributing -/
+example : (run (init 100 500) (unsortedHistoryPrefix)).streams.all
+    (fun st => Coins.le st.distributed st.coins && !st.distributed.isZero) = true := by decide
 
 /-- with the stream funded exactly, the streamer cannot cover the shares and its EndBlock fails:
     block processing stops (this is also a C11 matter) -/
@@ -336,6 +388,12 @@ theorem paging_state_counterexample :
     (run (init 100 1) unsortedHistory).streams.map (fun s => (s.id, s.distributed)) = [(1, []), (2, []), (3, [750])] ∧
     (run (init 100 500) unsortedHistory).streams.map (fun s => (s.id, s.distributed)) = [(1, []), (2, [1500]), (3, [1500])] := by
   decide
+
+/-- the same history with limit 3: pairs are served twice per epoch; stream 2 and stream 3 end up having
+    handed out 3375 of their 3000 coins -/
+theorem paging_revisit_state_counterexample :
+    (run (init 100 3) (unsortedHistory ++ [.end_] ++ blocks 2 1200 ++ blocks 1 1201 ++ blocks 1 1200)).streams.map
+      (fun s => (s.id, s.coins, s.distributed)) = [(1, [3000], []), (2, [3000], [3375]), (3, [3000], [3375])] := by decide
 
 def midEpochHistory : List Op :=
   [.begin 1, .end_, .createGauge 0 true 0 1 true [] 101 1, .createGauge 0 true 0 1 true [] 101 1,
